@@ -858,6 +858,7 @@ def scenario_cut(ctx, res, rng, idx):
     waits = {}
     after = {}
     endnew = {}
+    racing = {"got": 0, "late_ok": 0, "stuck": [], "refused": False}
     END = object()
 
     def main(sc, gw, ctl):
@@ -908,6 +909,34 @@ def scenario_cut(ctx, res, rng, idx):
                             raise
                         waits[k] = "exc " + type(e).__name__
                 threads.append(sc.spawn(waiter, name="wait%d" % k))
+        if idx % 3 == 0:
+            # a user thread keeps opening channels while the connection goes down: every channel it still gets must be told
+            # about the loss (a channel registered after the receiver's close-all sweep would wait for ever)
+            def racer():
+                for _ in range(40):
+                    try:
+                        c = gw.newchannel()
+                    except OSError:
+                        racing["refused"] = True
+                        return
+                    racing["got"] += 1
+                    if not gw.hasreceiver():
+                        try:
+                            c.waitclose(timeout=5.0)
+                            racing["late_ok"] += 1
+                        except EOFError:
+                            racing["late_ok"] += 1
+                        except BaseException as e:  # noqa: BLE001
+                            if isinstance(e, S.SchedAbort):
+                                raise
+                            racing["stuck"].append("%s on channel %d" % (type(e).__name__, c.id))
+                        return
+                    try:
+                        c.close()
+                    except OSError:
+                        pass   # the write side is gone already: closing fails like every other send
+                    sc.sc.yield_point("racer")
+            threads.append(sc.spawn(racer, name="racer"))
         sc.join(threads)
         sc.sc.block_until(lambda: not gw.hasreceiver(), 60.0, "receiver-end")
         after["hasreceiver"] = gw.hasreceiver()
@@ -985,6 +1014,8 @@ def scenario_cut(ctx, res, rng, idx):
             want = ("ok", "EOFError") if close_seen.get(cid) else ("EOFError",)
             if w not in want:
                 problems.append(f"conversation {k}: waitclose gave {w}, expected {'/'.join(want)} (close frame {'before' if close_seen.get(cid) else 'not before'} the cut at byte {cut})")
+        if racing["stuck"]:
+            problems.append("a channel handed out by newchannel() while the connection went down was never told about the loss: " + "; ".join(racing["stuck"]))
         if after.get("hasreceiver"):
             problems.append("gateway still reports a receiver after the connection was lost")
         for name in ("newchannel", "remote_exec", "send"):
@@ -1084,6 +1115,116 @@ def process_level_streams(ctx, res, nconv=4, spec="popen"):
         group.terminate(timeout=3.0)
     for p in problems:
         res.violations.append(dict(case={"scenario": "process-streams", "spec": spec}, what=p))
+
+
+def process_level_kill(ctx, res, nruns=3):
+    """C04: a REAL worker process is SIGKILLed while it streams items (possibly in the middle of a frame): blocked receivers get
+    complete items in order and then EOFError, waitclose raises EOFError, a callback gets its endmarker, nothing blocks; afterwards
+    send / newchannel / remote_exec raise OSError and the gateway reports that it is not receiving — each call bounded by a
+    watchdog (a call that does not come back within 8 s is a violation)."""
+    import os
+    import signal
+    import threading
+    import time
+
+    execnet = ctx.execnet
+    rng = ctx.rng("proc-kill")
+
+    def bounded(fn, what, problems, timeout=8.0):
+        box = {}
+
+        def run():
+            try:
+                box["v"] = ("ok", fn())
+            except BaseException as e:  # noqa: BLE001
+                box["v"] = ("exc", e)
+        t = threading.Thread(target=run, daemon=True)
+        t.start()
+        t.join(timeout)
+        if t.is_alive():
+            problems.append("%s did not come back within %.0f s after the peer was killed (blocks for ever)" % (what, timeout))
+            return ("hang", None)
+        return box["v"]
+
+    for run_i in range(nruns):
+        problems = []
+        group = execnet.Group()
+        size = rng.choice([10, 3000, 200000])
+        delay = rng.choice([0.0, 0.01, 0.05, 0.2])
+        case = {"scenario": "process-kill", "item_size": size, "kill_after": delay, "run": run_i}
+        res.count(("proc-kill", size, delay, run_i))
+        res.stat("process_level_runs")
+        try:
+            gw = group.makegateway("popen")
+            pid = gw.remote_exec("import os\nchannel.send(os.getpid())").receive(10)
+            body = "n = channel.receive()\ni = 0\nwhile True:\n    channel.send((i, b'x' * n))\n    i += 1\n"
+            ch_recv = gw.remote_exec(body)
+            ch_cb = gw.remote_exec(body)
+            ch_wait = gw.remote_exec("channel.receive()")
+            got, cb_log, outcome = [], [], {}
+            END = object()
+            ch_cb.setcallback(lambda x: cb_log.append("END" if x is END else x[0]), endmarker=END)
+
+            def receiver():
+                try:
+                    while True:
+                        got.append(ch_recv.receive(30)[0])
+                except EOFError:
+                    outcome["recv"] = "EOFError"
+                except BaseException as e:  # noqa: BLE001
+                    outcome["recv"] = "exc %r" % (e,)
+
+            def waiter():
+                try:
+                    ch_wait.waitclose(30)
+                    outcome["wait"] = "returned"
+                except EOFError:
+                    outcome["wait"] = "EOFError"
+                except BaseException as e:  # noqa: BLE001
+                    outcome["wait"] = "exc %r" % (e,)
+            ts = [threading.Thread(target=receiver, daemon=True), threading.Thread(target=waiter, daemon=True)]
+            for t in ts:
+                t.start()
+            ch_recv.send(size)
+            ch_cb.send(size)
+            time.sleep(delay)
+            os.kill(pid, signal.SIGKILL)
+            for t in ts:
+                t.join(15)
+                if t.is_alive():
+                    problems.append("a receiver / waitclose caller is still blocked 15 s after the peer was killed")
+            if outcome.get("recv") != "EOFError" and "recv" in outcome:
+                problems.append("blocked receive ended with %s instead of EOFError" % outcome["recv"])
+            if outcome.get("wait") not in ("EOFError", None):
+                problems.append("waitclose ended with %s instead of EOFError" % outcome["wait"])
+            if got != list(range(len(got))):
+                problems.append("items obtained before the loss are not a prefix in order: %r" % (got[:10],))
+            t_end = time.time() + 10
+            while "END" not in cb_log and time.time() < t_end:
+                time.sleep(0.02)
+            if cb_log.count("END") != 1 or cb_log[-1] != "END" or cb_log[:-1] != list(range(len(cb_log) - 1)):
+                problems.append("callback log after the loss: %d items, END count %d" % (len(cb_log), cb_log.count("END")))
+            if not problems:
+                for what, fn in (("send()", lambda: ch_recv.send(1)), ("newchannel()", gw.newchannel), ("remote_exec()", lambda: gw.remote_exec("pass")),
+                                 ("receive() again", lambda: ch_recv.receive(5)), ("repr(gateway)", lambda: repr(gw))):
+                    r = bounded(fn, what, problems)
+                    if r[0] == "hang":
+                        break
+                    if what in ("send()", "newchannel()", "remote_exec()") and not (r[0] == "exc" and isinstance(r[1], OSError)):
+                        problems.append("%s after the connection was lost: %r (expected OSError)" % (what, r))
+                    if what == "receive() again" and not (r[0] == "exc" and isinstance(r[1], EOFError)):
+                        problems.append("receive() after the loss: %r (expected EOFError again)" % (r,))
+                if gw.hasreceiver():
+                    problems.append("gateway still reports a receiver after its peer was killed")
+        except Exception as e:  # noqa: BLE001
+            problems.append("process-level kill run failed: %r" % (e,))
+        finally:
+            threading.Thread(target=lambda: group.terminate(timeout=1.0), daemon=True).start()
+        for p in problems:
+            res.violations.append(dict(case=case, what=p))
+        if problems:
+            return
+        res.traces += 1
 
 
 def process_level_multichannel(ctx, res, ngw=2):
